@@ -44,6 +44,15 @@ CHECKS['C17'] = dict(
    note='Trusted: Coq kernel + vm_compute, translator py2v (validated bit-for-bit), Model/Rounding.v (numpy scalar path, corresponded), harness/c17.py + '
         'driver.py. sum_floats/subtract_floats decimal exactness is search-only. Fee rates above 1/3 excluded in the risk_to_qty theorem.',
    tech='Rocq proof over source-regenerated kernels + translation validation + exact-arithmetic monitors on implementation outputs', ref='DESIGN.md section 6 (C17)')
+CHECKS['C20'] = dict(
+   text='Machine-checked theorems over hand-written models of _fill_absent_candles (one candle per minute on the grid, provided candles kept, gaps flat at '
+        'the previous close / first open - for every batch and interval) and of CandlesState.add_candle / add_multiple_1m_candles (add_candle equals the '
+        'append-or-replace-or-ignore specification on every strictly increasing store; every history of additions leaves strictly increasing timestamps). '
+        'The models are tied to the code on every run by differential execution compared inside Coq: every subset of present minutes up to the bound, random '
+        'long intervals with duplicates/off-grid/shuffled batches, random add histories incl. bulk batches; plus the spacing rejection of research.backtest.',
+   note='Trusted: Coq kernel + vm_compute; Model/Import.v and Model/CandleStore.v (hand-written; pydash.find = first match; live-mode branches not modelled); '
+        'harness/c20.py. Axiom-free. Relies on C18 for the backing array.',
+   tech='Rocq proof (spec equality + invariant over all histories) + model/implementation correspondence', ref='DESIGN.md section 6 (C20)')
 NA = {}
 def main():
     props = [json.loads(l)['id'] for l in open(f'{V}/properties.jsonl')]
